@@ -48,6 +48,11 @@ CLAIMED = {
             "Trusted: Redis double (MULTI/EXEC atomicity, hash/zset/expiry semantics for the bookkeeping keys), unit derivation from the documented rules. Standalone target only.",
             "deterministic simulation + crash-point enumeration over the target's request sequence",
             "DESIGN.md §3 C14"),
+    "C13": ("exploration",
+            "Closed loop through two stores: two Redis doubles that also PROPAGATE (master rewrite rules) linked by two real bisync RedisOutputs, with seeded client workloads at both sites (plain/transactional, marker-looking values and keys) and seeded interleaving of client writes, byte delivery to each link, target execution and time. Each foreign write must be applied exactly once at the peer, nothing echoed, transactions kept whole, and the exchange must quiesce within a bound once clients stop.",
+            "Trusted: the double's propagation rule table (documented Redis master behaviour, limited to the commands used), MULTI/EXEC semantics, lenient handling of business commands. Incremental phase only; no restarts.",
+            "deterministic simulation of a two-site replication loop + exactly-once / quiescence oracle",
+            "DESIGN.md §3 C13"),
 }
 
 NOT_APPLICABLE = {
